@@ -55,6 +55,21 @@ def pregen_slice(work):
     return gen_extract(work, "Slice", ["internal/slice/shrink.go:calCapacity"])
 
 
+def pregen_rbtreego(work):
+    """Ekit/Generated/RBTreeGo.lean: the pointer-level functions of internal/tree/red_black_tree.go as MiniGo terms
+    (harness/minigo); the C02 pointer-level theorems are about the interpreter running this output."""
+    binp, blog = work.build("minigo")
+    if binp is None:
+        return "Go->MiniGo translator does not build: " + blog
+    out = os.path.join(core.LEAN, "Ekit", "Generated", "RBTreeGo.lean")
+    tmp = os.path.join(work.dir, "RBTreeGo.lean")
+    rc, log = core.sh([binp, "-root", work.repo, "-out", tmp], env=core.GOENV, timeout=120)
+    if rc != 0:
+        return "Go->MiniGo translator failed (internal/tree/red_black_tree.go left the translated subset): " + log
+    core.write_if_changed(out, open(tmp).read())
+    return None
+
+
 def lean_obligations(res, pid, extra_targets=()):
     """lake build of the property module + axiom audit + forbidden-token grep.
     Returns True iff every proof obligation of `pid` is discharged."""
